@@ -301,7 +301,7 @@ func expectMethod(p sb.V, name string, args []sb.V) expect {
 			return expect{mode: "elem", repr: strconv.Quote("any:" + reprV(args[0]))}
 		}
 		return expect{mode: "nopanic"}
-	case "Var", "Self":
+	case "Var", "Self", "Join":
 		return expect{mode: "nopanic"}
 	}
 	return expect{mode: "error"}
@@ -350,7 +350,7 @@ func c16Keys() []sb.V {
 }
 
 func c16Methods() []string {
-	return []string{"Greet", "PtrName", "Zero", "Nothing", "Two", "Sum", "F64", "Flag", "Any", "Var", "Self", "unexported", "Nope"}
+	return []string{"Greet", "PtrName", "Zero", "Nothing", "Two", "Sum", "F64", "Flag", "Any", "Var", "Join", "Self", "unexported", "Nope"}
 }
 
 func c16ArgLists() [][]sb.V {
